@@ -228,6 +228,13 @@ def feeder_exits(fn, exc_names):
     return out
 
 
+def escaping_exits(fn, exc_names=frozenset()):
+    """kinds of exit (ERROR / CANCEL) that can leave the function uncaught, from awaits and async iteration in it"""
+    ex = _Exits(set(exc_names), set())
+    res = ex.block(fn.node.body, (False, None))
+    return sorted({k for k, _ in res if k in (ERROR, CANCEL)})
+
+
 def _feeders(repo, cls):
     """functions of the transport's module that put decoded frames (the items of receive_data) into the queue"""
     out = []
